@@ -102,6 +102,10 @@ def show_tree(t):
         return "L" + t[1].hex()
     if k == "R":
         return "R" + t[1].hex()
+    if k == "Bn":
+        return "B" + t[1].hex()
+    if k == "X":
+        return "X%02x" % (t[1] % 256) + t[2].hex()
     if k == "A":
         return "[" + ",".join(show_tree(x) for x in t[1]) + "]"
     if k == "O":
@@ -495,6 +499,11 @@ def gen_doc_term(rng, depth=0, maxdepth=4, budget=None, raw="json", top=True):
         if raw == "json":
             return ("R", rng.choice(RAW_JSON))
         import mpack
+        c = rng.random()
+        if c < 0.3:
+            return ("Bn", bytes(rng.getrandbits(8) for _ in range(rng.choice([0, 1, 2, 3, 255, 256, 17]))))
+        if c < 0.6:
+            return ("X", rng.getrandbits(8), bytes(rng.getrandbits(8) for _ in range(rng.choice([0, 1, 2, 3, 4, 5, 8, 15, 16, 17, 255, 256]))))
         v = mpack.gen_value(rng, depth=3, maxdepth=3)
         return ("R", mpack.encode(v, rng))
     if r < 0.86:
@@ -520,6 +529,12 @@ def stored_tree(t):
     k = t[0]
     if k == "L":
         return ("S", t[1])
+    if k == "Bn":
+        import mpack
+        return ("R", mpack.encode(("bin", t[1])))
+    if k == "X":
+        import mpack
+        return ("R", mpack.encode(("ext", t[1] % 256, t[2])))
     if k == "d":
         v = f64_value(t[1])
         if v == "nan":
